@@ -45,7 +45,11 @@ def exact_case(chk, r, kind, els, total, p, as_type, tag):
         arg = None
     else:
         vals = [float(v) for v in total]
-        arg = {"list": list(vals), "tuple": tuple(vals), "ndarray": np.array(vals), "series": pd.Series(vals)}[as_type]
+        ints = [int(v) for v in total]
+        arg = {"list": list(vals), "tuple": tuple(vals), "ndarray": np.array(vals), "series": pd.Series(vals),
+               "int-tuple": tuple(ints), "int-list": list(ints), "mixed-tuple": (ints[0], ints[1], vals[2], vals[3]),
+               "mixed-list": [vals[0], ints[1], np.float32(vals[2]) if float(np.float32(vals[2])) == vals[2] else vals[2], ints[3]],
+               "int-ndarray": np.array(ints)}[as_type]
     before = None if arg is None else [float(v) for v in arg]
     deg = total is not None and (total[0] == total[2] or total[1] == total[3])
     try:
@@ -156,7 +160,10 @@ def run_cases(chk, tier):
             els.append(_element(r, kind, cx, cy, min(span, 4)))
         if r.random() < 0.3:
             els.insert(r.randrange(len(els) + 1), None)
-        as_type = ("list", "tuple", "ndarray", "series")[k % 4]
+        as_type = ("list", "tuple", "ndarray", "series", "int-tuple", "mixed-tuple", "int-list", "mixed-list", "int-ndarray")[k % 9]
+        # a centre far outside the extent, on either side (clamped to the border cell; the scaled value does not fit 64-bit integers)
+        if k % 4 == 1:
+            els.append(_element(r, kind, r.choice((2 ** 70, -(2 ** 70), total[0] + 3)), r.choice((2 ** 80, -(2 ** 66), total[1])), 0))
         exact_case(chk, r, kind, els, total, p, as_type, "explicit")
         if k % 5 == 0:
             # default total bounds: equality only if the data's own extent is a power of two (or degenerate)
